@@ -332,8 +332,10 @@ class Interp:
         the code (to observe stores through them); only meaningful when the evaluation does not fork."""
         traces = []
         work = [[]]
+        overrides0 = dict(self.overrides)
         while work:
             prefix = work.pop()
+            self.overrides = dict(overrides0)
             self.choices = prefix
             self.ptr = 0
             self.pending = []
@@ -690,6 +692,10 @@ class Interp:
             if isinstance(base, (Opaque, Sym)):
                 base.attrs[target.attr] = v
                 self.trace.events.append(("setattr", base, target.attr, v, target))
+            elif isinstance(base, ModVal) and base.name in self.proj.modules:
+                # a module-level switch set at run time (constants.always_return_list = True): later reads see it
+                self.overrides[(base.name, target.attr)] = v
+                self.trace.events.append(("setglobal", base.name, target.attr, v, target))
             else:
                 raise Unsupported("attribute store on %r" % (base,))
         else:
@@ -744,7 +750,7 @@ class Interp:
         if node.id in ("str", "int", "list", "tuple", "dict", "set", "bytes", "float", "bool", "object"):
             return TypeVal(node.id)
         if node.id in ("isinstance", "len", "map", "locals", "hasattr", "any", "all", "sorted", "enumerate",
-                       "range", "zip", "getattr", "iter", "print", "min", "max", "repr", "type", "ord", "chr", "hex", "setattr", "delattr", "next", "vars", "callable", "sum", "abs", "hash", "float"):
+                       "range", "zip", "getattr", "iter", "print", "min", "max", "repr", "type", "ord", "chr", "hex", "setattr", "delattr", "next", "vars", "callable", "sum", "abs", "hash", "float", "slice"):
             return Builtin(node.id)
         if node.id in ("ValueError", "TypeError", "KeyError", "NotImplementedError", "Exception", "StopIteration"):
             return TypeVal(node.id)
@@ -799,6 +805,9 @@ class Interp:
             # a plain attribute read of an unknown object: an opaque value named after its path
             v = Sym("%s.%s" % (base.name, node.attr), "any", None)
             return v
+        if isinstance(base, (str, int, float, list, tuple, dict)) or base is None:
+            if not hasattr(base, node.attr):
+                raise RaiseEx("AttributeError", "%r object has no attribute %r" % (type(base).__name__, node.attr), node)
         return BoundMethod(base, node.attr)
 
     def e_List(self, node, env):
@@ -1131,6 +1140,11 @@ class Interp:
                 return Sym("%s[%s:%s]" % (base.name, lo, hi), "any", None)
             raise Unsupported("slice of %r" % (base,))
         key = self.eval(node.slice, env)
+        if isinstance(key, slice) and key.step is None:
+            if isinstance(base, (list, tuple, str)):
+                return base[key]
+            if isinstance(base, (Sym, Opaque)):
+                return Sym("%s[%s:%s]" % (base.name, key.start, key.stop), "any", None)
         if isinstance(base, AStr) and isinstance(key, int):
             if not base.parts:
                 raise RaiseEx("IndexError", "string index out of range", node)
@@ -1166,6 +1180,8 @@ class Interp:
         if isinstance(base, Opaque) and base.attrs:
             # an object of a package class that defines __getitem__: dispatch to it
             m_ = self._class_method(base.kind, "__getitem__")
+            if m_ is not None and m_.qual in self.summaries:
+                return self.summaries[m_.qual](self, [key], {}, node)
             if m_ is not None:
                 return self.call_func(m_, [key], {}, self_obj=base, node=node)
         if isinstance(base, (Sym, Opaque)):
@@ -1511,6 +1527,8 @@ class Interp:
                 except ValueError:
                     raise RaiseEx("ValueError", "could not convert string to float: %r" % pos[0], node)
             raise Unsupported("float(%r)" % (pos[0],))
+        if name == "slice" and 1 <= len(pos) <= 3 and all(x is None or (isinstance(x, int) and not isinstance(x, bool)) for x in pos):
+            return slice(*pos)
         if name == "abs" and pos and isinstance(pos[0], (int, float)):
             return abs(pos[0])
         if name in ("sorted", "max", "min") and len(pos) == 1 and isinstance(pos[0], (list, tuple, dict)) and set(kw) <= {"key", "reverse"}:
@@ -1831,6 +1849,14 @@ class Interp:
         if isinstance(base, Opaque) and base.attrs and base.name not in ("self", "cls") and base.kind not in ("obj", "iter", "list", "dict", "set"):
             # an object of a package class carrying its fields: run the class's own method on it
             m_ = self._class_method(base.kind, attr)
+            if m_ is None and attr == "get" and pos and self._class_method(base.kind, "__getitem__") is not None:
+                # Mapping mixin: get(k, default) is self[k] with KeyError turned into the default
+                try:
+                    return self.call_func(self._class_method(base.kind, "__getitem__"), [pos[0]], {}, self_obj=base, node=node)
+                except RaiseEx as e_:
+                    if e_.exc != "KeyError":
+                        raise
+                    return pos[1] if len(pos) > 1 else kw.get("default")
             if m_ is not None and not any(isinstance(d, ast.Name) and d.id == "property" for d in m_.node.decorator_list):
                 q_ = m_.qual
                 if q_ in self.summaries:
